@@ -87,7 +87,9 @@ def _loops(run, F, PV, C):
         return None
     atoms = ["SEEN", "ROOT", "HAS"]
     n_cases = 0
-    for lf in Walker(A, parse, C, atom, stop_at_for=True).walk(head, stops={head, after}):
+    # what leaving the loop leads to counts: the walk goes on past the loop up to the next target (`while not seen: ...` followed by the raise
+    # is the cycle guard just as well as a raise inside the loop)
+    for lf in Walker(A, parse, C, atom, stop_at_for=True).walk(head, stops={head}):
         kind = "next" if lf.kind == "stop" and lf.node is head else ("leave" if lf.kind == "stop" else lf.kind)
         pushes = [v for k, st, v in lf.effects if k == "expr" and isinstance(v, ast.Call) and call_name(v) == "append" and isinstance(v.func.value, ast.Name)]
         for v in completions({k: b for k, b in lf.pc.items() if k in atoms}, atoms):
